@@ -306,6 +306,22 @@ var trapNames = []string{"getPrototypeOf", "setPrototypeOf", "isExtensible", "pr
 type bridge struct {
 	rt      *goja.Runtime
 	reflect map[string]goja.Callable
+	steps   uint64 // VM instructions since arm()
+	limit   uint64
+}
+
+// arm installs / resets the non-termination guard: after limit VM instructions the runtime is interrupted (the
+// call then returns an *InterruptedError and the runtime is discarded).
+func (e *bridge) arm(limit uint64) {
+	if e.limit == 0 {
+		goja.VerifSetStepHook(e.rt, func(r *goja.Runtime) {
+			e.steps++
+			if e.steps == e.limit {
+				r.Interrupt("c11: step budget exhausted")
+			}
+		})
+	}
+	e.steps, e.limit = 0, limit
 }
 
 func (e *bridge) call(fn goja.Callable, args ...goja.Value) goja.Value {
@@ -330,11 +346,16 @@ func (e *bEngine) run(c *BCase) (res string, panicked string) {
 	e.cur = c
 	e.used++
 	rt := e.rt
+	e.arm(5_000_000)
 	v, err := e.runB(goja.Undefined(), rt.ToValue(c.Trap), rt.ToValue(c.Flavour), rt.ToValue(c.TKind), rt.ToValue(c.Cfg), rt.ToValue(c.XCfg),
 		rt.ToValue(c.Ext), rt.ToValue(c.Proto), rt.ToValue(c.Key), rt.ToValue(c.HKind), rt.ToValue(c.Fwd), rt.ToValue(c.RKind),
 		rt.ToValue(c.RIdx), rt.ToValue(c.Op), rt.ToValue(c.Arg), rt.ToValue(c.Revoke), rt.ToValue(c.Layers), rt.ToValue(c.Bare))
 	if err != nil {
-		return "harness-error:" + err.Error(), ""
+		e.broken = true
+		if _, ok := err.(*goja.InterruptedError); ok {
+			return "nontermination\n\n\n", ""
+		}
+		return "harness-error:" + firstLine(err.Error()) + "\n\n\n", ""
 	}
 	return v.String(), ""
 }
